@@ -34,7 +34,7 @@ MANIFEST = dict(
          "listed names (libm, rand, time, terminal size) and the list names nothing else. Per-procedure no-panic / "
          "errors-iff-invalid theorems live in the files of C15 (strings, characters), C14 (lists, vectors), C08 (+ - * and "
          "integer division) and C07/C13 (every instruction error becomes a returned failure with canonical registers). "
-         "For every expression of the C01 fragments (constants, quote, if, globals, define/set!, builtin application, lambda/closures, calls by name, recursion through a global) that has a reference value, Vm::eval never panics, for any fuel: the outcome is the value or 'out of model fuel' (C06_fragment_no_panic, C06_fragment2_no_panic, C06_fragment3_no_panic). For ANY datum and any fuel, from the booted machine and every session state, Vm::eval never panics at the VM-level sites {payload lookup, lambda / code lookup, environment slots, global slot range, continuation restore, ip decrement, stack trace} (C06_eval_no_vm_panic: an invariant - every stored value names existing payloads and code - is established by boot and preserved by the compiler, all 16 opcodes incl. apply / eval / call/cc / calling a continuation, and every builtin of the generated table); the site Heap::put_cell of a procedure / continuation / macro object belongs to that set since the fixes edf2b0d and a8af987 (findings eval-object-in-constant and eval-object-as-define-name: every cell the compiler and the builtins store is a datum; their former witnesses are errors: C06_repaired_eval_object_in_constant, C06_repaired_eval_object_as_define_name, C06_quote_constant_panic). NOT proved: four sites that need the frame discipline of compiled code (heap index through %ep, conversion of a non-value cell, usize underflow in frame arithmetic, environment slot index), and a no-panic theorem for the whole instruction set and for every builtin on ill-typed arguments (vm_progress is OPEN); that part is "
+         "For every expression of the C01 fragments (constants, quote, if, globals, define/set!, builtin application, lambda/closures, calls by name, recursion through a global) that has a reference value, Vm::eval never panics, for any fuel: the outcome is the value or 'out of model fuel' (C06_fragment_no_panic, C06_fragment2_no_panic, C06_fragment3_no_panic). For ANY datum and any fuel, from the booted machine and every session state, Vm::eval never panics at the VM-level sites {payload lookup, lambda / code lookup, environment slots, global slot range, continuation restore, ip decrement, stack trace} (C06_eval_no_vm_panic: an invariant - every stored value names existing payloads and code - is established by boot and preserved by the compiler, all 16 opcodes incl. apply / eval / call/cc / calling a continuation, and every builtin of the generated table); the site Heap::put_cell of a procedure / continuation / macro object belongs to that set since the fixes edf2b0d and a8af987 (findings eval-object-in-constant and eval-object-as-define-name: every cell the compiler and the builtins store is a datum; their former witnesses are errors: C06_repaired_eval_object_in_constant, C06_repaired_eval_object_as_define_name, C06_quote_constant_panic). Towards the four remaining sites, the local statements are proved (lexical load/store below the environment size are total; MOV/PUSH in well-formed code never fail through %ep; CLOSURE pairs code with an environment of exactly the map's size; ENTER after CALL never panics and gives the callee that environment; RET and argument loads are total in a frame and restore an ok %ep) together with an executable monitor of the candidate invariant that implies their preconditions and holds at every instruction boundary of 13 evaluations exercising closures, varargs, apply, call/cc re-entry, eval and tail calls (C06_discipline_example). NOT proved: four sites that need the frame discipline of compiled code (heap index through %ep, conversion of a non-value cell, usize underflow in frame arithmetic, environment slot index), and a no-panic theorem for the whole instruction set and for every builtin on ill-typed arguments (vm_progress is OPEN); that part is "
          "decided by running every builtin x arity 0..5 x a palette of all value kinds and boundary values on the "
          "implementation (panic hook, error rendering forced, probe evaluation after each session) and on the extracted "
          "model, plus token soup through scanner, reader, evaluator, sliced evaluator and highlighter.",
